@@ -93,3 +93,55 @@ def rules(t):
             if not re.search(r"P2\(slice\)\.slice_index$", fmt(a[1])) or "P2(slice).payload" not in fmt(a[2]): r.bad(f"{name}|args", c, "slice constructor fed with another index/payload than the slice's own")
     out.append(r)
     return out
+
+
+def slice_id_per_message(t):
+    """C03.f: slices of different unreliable messages never share a message id: after the slices of one message were built from
+    `sliced_message_id`, the id is advanced before the next message is taken from the queue (or the function returns)."""
+    f = t.fn("SendChannelUnreliable::get_packets_to_send")
+    r = RuleResult("C03.f", "unreliable slices: the sliced-message id is advanced once per sliced message, before the next message is dequeued", floor=2)
+    allst = list(t.stores_like(r"\.sliced_message_id$", f))
+    bumps = [s for s in allst if re.search(r"sliced_message_id AddWithOverflow 1\)\.0$", fmt(t.stored(s)))]
+    for s in allst:
+        r.site(s)
+        if s not in bumps: r.bad("id-step", s, f"sliced_message_id assigned {fmt(t.stored(s))[-50:]} (only +1 is allowed)")
+    nxt = list(t.effects("unreliable_messages", {"pop_front"}, f))
+    for a in t.aggrs("renet::packet::Slice", None, f):
+        r.site(a)
+        if not t.is_field(t.field_of_aggr(a, "message_id"), "sliced_message_id"): r.bad("id-src", a, f"slice message_id is {fmt(t.field_of_aggr(a,'message_id'))[-50:]}, not the channel's sliced_message_id"); continue
+        ok, w = must_pass(f, pos(a), {pos(b) for b in bumps}, stops={pos(x) for x in nxt})
+        if not ok: r.bad("id-shared", a, "after the slices of a message were built the sliced-message id is not advanced before the next message is dequeued / the function returns: two messages share one reassembly id (stitched or lost messages)")
+    return r
+
+_rules_c03 = rules
+def rules(t):
+    out = _rules_c03(t)
+    out.append(slice_id_per_message(t))
+    return out
+
+
+def length_from_last_slice(t):
+    """C03.g: the reassembled length is decided by the last slice alone: every length-changing operation on the reassembly buffer is
+    dominated by `slice_index == num_slices - 1` and its new length is (num_slices-1)*SLICE_SIZE + len(bytes of that slice)."""
+    f = t.fn("SliceConstructor::process_slice")
+    S = t.F.consts["renet::packet::SLICE_SIZE"]["val"]
+    r = RuleResult("C03.g", "reassembly length comes from the last slice only: resize/truncate of the buffer only under `slice_index == num_slices - 1`, to (num_slices-1)*SLICE_SIZE + len(bytes)", floor=1)
+    last = [(br, op, te, fe) for br, op, te, fe in t.find_cmp(f, lambda a: fmt(strip(a)) == "P2(slice_index)", lambda b: re.search(r"num_slices SubWithOverflow 1\)\.0$", fmt(b)) is not None, None) if op == "Eq"]
+    for c in t.sites(f):
+        n = c.node
+        if n["k"] != "call" or not n["args"]: continue
+        m = method_of(callee_name(n))
+        if m not in ("resize", "truncate", "set_len", "split_off", "drain", "resize_with", "shrink_to", "clear", "extend_from_slice", "push", "pop", "insert", "remove"): continue
+        if not t.mentions_field(t.arg(c, 0), "sliced_data"): continue
+        r.site(c, m)
+        if not any(t.edge_dominates(f, te, c.bb) for br, op, te, fe in last): r.bad(f"len-change|{m}", c, f"{m}() changes the reassembly buffer length outside the `slice_index == num_slices - 1` branch: the message length would depend on arrival order")
+        elif m == "resize":
+            ln = fmt(t.arg(c, 1))
+            if not (f"num_slices SubWithOverflow 1).0 MulWithOverflow {S}" in ln and "len(P3(bytes))" in ln.replace("&*", "").replace("&", "")): r.bad("len-value", c, f"final length is {ln[-80:]}, expected (num_slices-1)*SLICE_SIZE + len(bytes)")
+    return r
+
+_rules_c03b = rules
+def rules(t):
+    out = _rules_c03b(t)
+    out.append(length_from_last_slice(t))
+    return out
